@@ -232,7 +232,7 @@ impl Trace {
         );
         if let Some(e) = &self.expect {
             let _ = writeln!(s, "expect oracle={}", e.oracle);
-            let _ = writeln!(s, "expect-detail {}", e.detail);
+            let _ = writeln!(s, "expect-detail {}", e.detail.replace('\n', " ").replace('\r', " "));
         }
         for o in &self.ops {
             let _ = writeln!(s, "t={} {}", o.t, op_show(&o.op));
